@@ -128,21 +128,19 @@ def relevant_difference(c, mo, io):
 
 
 def known_F15_first_line(c, mo, io):
-    # a template whose FIRST output comes from a partial call that itself begins with a partial call: the
-    # first line lacks the indentation (trailing_newline starts out false). This hits the indented call
-    # when it is first in main, and the reference rendering of p alone when p begins that way.
+    """the first line the template writes comes out of a nested partial call and lacks its indentation
+    (trailing_newline starts out false): the outputs differ ONLY in the leading blanks of the first written line.
+    This hits the indented call when it is the first thing main writes, and the reference rendering of p alone
+    when p's first output comes from a nested partial."""
     import re
-    from hblib import describe_case
-    d = describe_case(c['line'])
-    bodies = dict(re.findall(r'regs "(\w+)" "((?:[^"\\]|\\.)*)"', d))
-    def starts_with_partial(name):
-        b = bodies.get(name, '')
-        m = re.match(r'[ \\t]*\{\{> (\w+)\}\}', b)
-        return m.group(1) if m else None
-    firsts = ['main'] if c.get('where') == 'first' else []
-    firsts.append('p')
-    for f in firsts:
-        t = starts_with_partial(f)
-        if t and (f == 'main' and starts_with_partial(t) or f == 'p' and (starts_with_partial(t) or re.match(r'[ \\t]+\{\{> ', bodies.get('p', '')))):
-            return True
-    return False
+    m = re.search(r"expected \(modulo blank-line whitespace\) ('(?:[^'\\]|\\.)*'|\"(?:[^\"\\]|\\.)*\"), got ('(?:[^'\\]|\\.)*'|\"(?:[^\"\\]|\\.)*\")", str(c.get('_what', '')))
+    if not m:
+        return False
+    exp, got = eval(m.group(1)), eval(m.group(2))
+    el, gl = exp.split('\n'), got.split('\n')
+    if len(el) != len(gl):
+        return False
+    diffs = [i for i, (a, b) in enumerate(zip(el, gl)) if norm(a) != norm(b)]
+    if not (1 <= len(diffs) <= 2):          # (2: the call sits in an each over two elements)
+        return False
+    return all(el[i].lstrip(' \t') == gl[i].lstrip(' \t') for i in diffs)
